@@ -2244,12 +2244,23 @@ class DesignSpace:
             msg = f"The variable {current_name} is not in the design space."
             raise ValueError(msg)
 
-        for dictionary in [self.normalize, self._variables, self.__names_to_indices]:
-            dictionary[new_name] = dictionary.pop(current_name)
+        # Rename in place: the variable keeps its position and thus its indices.
+        for dictionary in [
+            self.normalize,
+            self._variables,
+            self.__names_to_indices,
+            self.__current_value,
+        ]:
+            if current_name in dictionary:
+                items = [
+                    (new_name if name == current_name else name, value)
+                    for name, value in dictionary.items()
+                ]
+                dictionary.clear()
+                dictionary.update(items)
 
-        current_value = self._current_value.pop(current_name, None)
-        if current_value is not None:
-            self._current_value[new_name] = current_value
+        # The normalized current value is indexed by the variable names.
+        self.__clear_dependent_data()
 
     def initialize_missing_current_values(self) -> None:
         """Initialize the current values of the design variables when missing.
